@@ -34,7 +34,7 @@ CHECK = {
     ],
     "opts": {"unwind": 8, "substitute": SUB, "feasibility": False, "batch_fresh": True, "reach_fresh": True, "equalfold_ascii": True},
     "stop": [k for k in SUB.keys() if k.startswith("(*" + P)],
-    "timeout_ms": {"quick": 400000, "thorough": 1800000},
+    "timeout_ms": {"quick": 900000, "thorough": 2400000},
     "explanation": "Handler-step invariants (encoding (a) of the plan), volatile mode, whole messages (no chunking). The bounded fault history (b) and liveness ('eventually confirmed') are NOT claimed. "
                    "vC42_producer: the real (*producerController).Receive runs for one arbitrary message from an arbitrary state satisfying I_p (0 <= confirmedSeq <= currentSeq, unconfirmed = the 0..3 contiguous ascending sequences (confirmedSeq, currentSeq], StoredAck phase => the pending message is the latest stored one). Asserted at every emission: what goes out under sequence s carries the id and payload stored under s (P(s)) - or is the just-accepted pending message - in the controller's session, and emissions within a step ascend; Stored reports the latest stored sequence. "
                    "After the step: I_p preserved; every surviving entry kept its id and payload; a new sequence (currentSeq+1, at most one per step) is given only to the message the bound producer offers under the open credit token; the list is cut only at its head, up to a confirmation authenticated for the current registration/session/nonce and <= currentSeq - so nothing above the watermark is ever dropped. "
